@@ -63,10 +63,18 @@ func c17NearReservedPass(c *vh.Ctx, b *vh.Batch) []vh.SchemaCase {
 		switch {
 		case legal && err != nil:
 			cls := "near-reserved-text-rejected-" + pos.Kind
-			if id == "Set" && c17TextSetShape[pos.Name] {
+			// the two repaired `Set` defects: attributed by repair — the same text with another ordinary identifier in
+			// place of `Set` must parse (otherwise the position's text is rejected for a reason that is not about `Set`)
+			otherParses := func() bool {
+				var sc2 schema.Schema
+				ok := false
+				vh.Protect(func() { ok = sc2.UnmarshalCedar([]byte(pos.Text("Set"+c17Fresh))) == nil })
+				return ok
+			}
+			if id == "Set" && c17TextSetShape[pos.Name] && otherParses() {
 				cls = "type-named-Set-renders-unparseable"
 			}
-			if id == "Set" && pos.Name == "namespace-referenced" { // `a: Set::A`: the same check in parseType, reached through a namespace called Set
+			if id == "Set" && pos.Name == "namespace-referenced" && otherParses() { // `a: Set::A`: the same check in parseType, reached through a namespace called Set
 				cls = "type-reference-into-namespace-Set-renders-unparseable"
 			}
 			c.Report(vh.Finding{Class: cls, What: fmt.Sprintf("the schema parser rejects %q, although %q is an ordinary identifier at position %s: %v", txt, id, pos.Name, err), Check: "oracle", Op: "schema-parse",
